@@ -170,8 +170,9 @@ class FakeCondition:
         me = s.me()
         if self.lock.owner is not me:
             raise RuntimeError("cannot notify on un-acquired lock")
+        # who is woken is decided when the operation is performed, not when it is announced
+        s.yield_(Op("notify", lambda: [self.name, [w.thread.name for w in self.waiters[:n]]], preemptible=False))
         woken = self.waiters[:n]
-        s.yield_(Op("notify", [self.name, [w.thread.name for w in woken]], preemptible=False))
         for w in woken:
             w.notified = True
             self.waiters.remove(w)
@@ -181,8 +182,8 @@ class FakeCondition:
         me = s.me()
         if self.lock.owner is not me:
             raise RuntimeError("cannot notify on un-acquired lock")
+        s.yield_(Op("notify_all", lambda: [self.name, [w.thread.name for w in self.waiters]], preemptible=False))
         woken = list(self.waiters)
-        s.yield_(Op("notify_all", [self.name, [w.thread.name for w in woken]], preemptible=False))
         for w in woken:
             w.notified = True
         self.waiters = []
